@@ -249,7 +249,8 @@ impl ThreeFold {
 
     pub fn add(&mut self, board: Board) -> bool {
         let count = self.boards.entry(board).or_insert(0);
-        *count += 1;
+        // a position can occur far more often than three times when nobody claims the draw
+        *count = count.saturating_add(1);
         *count == 3
     }
 
@@ -275,7 +276,7 @@ impl<'a> BoardList<'a> {
             prev: PrevBoard::Prev(self),
             board,
             three_fold: self.three_fold,
-            count: self.count(board) + 1,
+            count: self.count(board).saturating_add(1),
         }
     }
 
